@@ -31,6 +31,16 @@ OPTION_PROBES = [(ebb_calc.move_dist_t3, ["time", "rate", "accel", "jerk", "accu
 def body(ctx, case):
     """The main move, preceded (when case["before"] is set) by calls for the same rates with another duration and/or
     start accumulator: every call is judged on its own, so nothing remembered from one call may leak into the next."""
+    if case.get("t0"):
+        # a planner samples a move at its very start: a zero-duration query for these rates (T = 0 is outside the
+        # quantifier, so whatever it returns - or raises - is not judged) must not change what the move itself yields
+        ctx.classes["zero_duration_query_first"] += 1
+        for fn, args in ((ebb_calc.rate_t3, (0, case["rate"], case["accel"], case["jerk"])),
+                         (ebb_calc.move_dist_t3, (0, case["rate"], case["accel"], case["jerk"], case["accum"]))):
+            try:
+                fn(*args)
+            except Exception:  # pylint: disable=broad-except
+                pass
     for variation in case.get("before", []):
         ctx.classes["same_rates_other_duration_or_accumulator"] += 1
         one(ctx, dict(case, **variation), case)
@@ -121,6 +131,8 @@ def cases(draw):
             "accum": draw(accumulators()), "ambient": draw(AMBIENT)}
     if draw(st.integers(0, 3)) == 0:
         case["before"] = draw(variations(case["T"]))
+    if draw(st.integers(0, 5)) == 0:
+        case["t0"] = True
     return case
 
 
